@@ -53,7 +53,8 @@ Section V2.
   | LSend (s : N)                   (* subscribers[subscriber_index].send(batch[message_index]); that subscriber is s *)
   | LApply (r : option N)           (* apply_subscriber; r = the subscription it replaces *)
   | LHandle (a s : N)
-  | LStop (a : N).
+  | LStop (a : N)
+  | LStart (a : N).                 (* Starting -> Running *)
 
   Definition init : state := mkSt [] [] DIdle [] (fun _ => actor0) (fun _ => None).
 
@@ -155,7 +156,7 @@ Section V2.
                         if a_alive x then
                           Some (mkSt (queue st) (batch st) (DMsg a b si (S mi)) (subscribers st)
                                      (updf (actors st) (e_actor e)
-                                           (mkActor true (a_mbox x ++ [(s, r)]) (a_got x)))
+                                           (mkActor true (a_started x) (a_mbox x ++ [(s, r)]) (a_got x)))
                                      (decl st))
                         else (* !sent: subscribers.remove(subscriber_index) *)
                           Some (mkSt (queue st) (batch st) (DSub a b si)
@@ -182,12 +183,12 @@ Section V2.
         end
     | LHandle a s =>
         let x := actors st a in
-        if a_alive x then
+        if a_alive x && a_started x then
           match a_mbox x with
           | (s', r) :: q =>
               if N.eqb s' s
               then Some (mkSt (queue st) (batch st) (dp st) (subscribers st)
-                              (updf (actors st) a (mkActor true q (a_got x ++ [(s', r)]))) (decl st))
+                              (updf (actors st) a (mkActor true true q (a_got x ++ [(s', r)]))) (decl st))
               else None
           | [] => None
           end
@@ -196,7 +197,13 @@ Section V2.
         let x := actors st a in
         if a_alive x
         then Some (mkSt (queue st) (batch st) (dp st) (subscribers st)
-                        (updf (actors st) a (mkActor false [] (a_got x))) (decl st))
+                        (updf (actors st) a (mkActor false (a_started x) [] (a_got x))) (decl st))
+        else None
+    | LStart a =>
+        let x := actors st a in
+        if a_alive x && negb (a_started x)
+        then Some (mkSt (queue st) (batch st) (dp st) (subscribers st)
+                        (updf (actors st) a (mkActor true true (a_mbox x) (a_got x))) (decl st))
         else None
     end.
 
@@ -238,6 +245,7 @@ Section V2.
     | LApply r => if oeqb r (Some s) then [ADrop] else []
     | LHandle _ s' => if N.eqb s' s then [AHandle] else []
     | LStop a' => if N.eqb a' a then [AStop] else []
+    | LStart _ => []
     end.
   Definition projs (s a : N) (ls : list label) : list alabel := flat_map (proj s a) ls.
 
@@ -315,5 +323,6 @@ Arguments LSend {C}.
 Arguments LApply {C}.
 Arguments LHandle {C}.
 Arguments LStop {C}.
+Arguments LStart {C}.
 Arguments Data {C}.
 Arguments SetSub {C}.
